@@ -1,9 +1,10 @@
 import Driver.Proto
 import PqModel.BloomWriter
 import PqModel.BloomPlace
+import PqModel.BloomSegments
 
 namespace Driver.Ops.C07
-open Driver PqModel.XxHash PqModel.Bloom PqModel.BloomWriter PqModel.BloomPlace
+open Driver PqModel.XxHash PqModel.Bloom PqModel.BloomWriter PqModel.BloomPlace PqModel.BloomSegments
 
 def showHashes (hs : List UInt64) : String := showList (fun h => toString h.toNat) hs
 
@@ -79,8 +80,46 @@ def showLoc (t : MetaTab) : Ev → Option String
     | none => some s!"{rg}.{col}.none"
   | _ => none
 
+/-- a member answer of a multi filter: `n` = no filter, else `<ok 0|1><err 0|1>` -/
+def parseMember? (s : String) : Option (Option Ans) :=
+  match s with
+  | "n" => some none
+  | "00" => some (some ⟨false, false⟩)
+  | "01" => some (some ⟨false, true⟩)
+  | "10" => some (some ⟨true, false⟩)
+  | "11" => some (some ⟨true, true⟩)
+  | _ => none
+
+def showAns (a : Ans) : String := (if a.ok then "1" else "0") ++ (if a.err then "1" else "0")
+
+/-- `<a>.<b>` -/
+def parsePair? (s : String) : Option (Nat × Nat) :=
+  match (s.splitOn ".").mapM parseNat? with
+  | some [a, b] => some (a, b)
+  | _ => none
+
 def handle (toks : List String) : Option String :=
   match toks with
+  -- bloom.multi <members> -> answer of multiBloomFilter.Check
+  | ["bloom.multi", ms] => some <|
+    match parseList? parseMember? ms with
+    | some ms => s!"ok {showAns (multiCheck ms)}"
+    | none => "bad-op"
+  -- bloom.pack <maxRows> <rows.columnOriented,...> -> batches of writeSegmentsPacked: `0+1,2,3+4`
+  | ["bloom.pack", mr, segs] => some <|
+    match parseNat? mr, parseList? parsePair? segs with
+    | some mr, some segs =>
+      if segs.any (fun s => s.2 > 1) then "bad-op" else
+      let bs := packBatches mr (segs.map (fun s => (s.1, s.2 == 1)))
+      s!"ok {showList (fun b => "+".intercalate (b.map toString)) bs}"
+    | _, _ => "bad-op"
+  -- bloom.packsize <bits> <numValues.exact,...> -> len(c.filter) after configureBloomFiltersForSegments
+  | ["bloom.packsize", bits, segs] => some <|
+    match parseNat? bits, parseList? parsePair? segs with
+    | some bits, some segs =>
+      if segs.any (fun s => s.2 > 1) then "bad-op" else
+      s!"ok {packedPresize bits (segs.map (fun s => { numValues := s.1, exact := s.2 == 1, pages := [] }))}"
+    | _, _ => "bad-op"
   -- bloom.header <numBytes> <gzip 0|1> -> thrift bytes of the BloomFilterHeader, length of the encrypted section
   | ["bloom.header", nb, gz] => some <|
     match parseNat? nb with
